@@ -770,8 +770,20 @@ func cmdCheck(prop, tier string, seed uint64, repo string) int {
 		return 2
 	}
 	if uint64(len(bt.lines)) != tc.runs {
-		fmt.Printf("INFRASTRUCTURE-ERROR expected %d runs, got %d\n", tc.runs, len(bt.lines))
-		return 2
+		// a worker slice is given up after three hangs (each costs seconds of
+		// real time and the verdict is already a violation); otherwise every
+		// run must be accounted for
+		hangs := 0
+		for _, l := range bt.lines {
+			if l.Status == "hang" {
+				hangs++
+			}
+		}
+		if hangs == 0 {
+			fmt.Printf("INFRASTRUCTURE-ERROR expected %d runs, got %d\n", tc.runs, len(bt.lines))
+			return 2
+		}
+		fmt.Printf("NOTE %d of %d runs executed: worker slices were given up after three hangs each\n", len(bt.lines), tc.runs)
 	}
 	kn := loadKnown()
 	xpMax := 32
@@ -1069,15 +1081,23 @@ func cmdDeterminism(prop string, seed uint64, n uint64, repo string) int {
 			wg.Add(1)
 			go func(w int) {
 				defer wg.Done()
-				args := []string{"-prop", prop, "-seed", strconv.FormatUint(seed, 10), "-tier", "quick", "-from", "0", "-to", strconv.FormatUint(n, 10),
-					"-stride", strconv.Itoa(workers), "-offset", strconv.Itoa(w), "-repo", repo}
-				lines, _, err := runWorker(b, args, fmt.Sprintf("d%d-%d", rep, w), gmp, 30*time.Minute)
-				mu.Lock()
-				all = append(all, lines...)
-				if err != nil && ferr == nil {
-					ferr = err
+				from := uint64(0)
+				for attempt := 0; attempt < 200; attempt++ {
+					args := []string{"-prop", prop, "-seed", strconv.FormatUint(seed, 10), "-tier", "quick", "-from", strconv.FormatUint(from, 10), "-to", strconv.FormatUint(n, 10),
+						"-stride", strconv.Itoa(workers), "-offset", strconv.Itoa(w), "-repo", repo}
+					lines, code, err := runWorker(b, args, fmt.Sprintf("d%d-%d-%d", rep, w, attempt), gmp, 30*time.Minute)
+					mu.Lock()
+					all = append(all, lines...)
+					if err != nil && ferr == nil {
+						ferr = err
+					}
+					mu.Unlock()
+					if err != nil || code != 3 || len(lines) == 0 {
+						break
+					}
+					// the worker gave up after a stalled or hung run: go on after it
+					from = lines[len(lines)-1].Index + 1
 				}
-				mu.Unlock()
 			}(w)
 		}
 		wg.Wait()
